@@ -144,6 +144,7 @@ def check_cfg(ctx, fx, cfg):
         "<broker::Broker<T> as handler::Handler<broker::Publish<T>>>::handle::", "context::Context::<A>::publish::", "context::Context::<A>::subscribe::",
         "actor::service::Service::setup::", "actor::service::Service::from_registry::",
     )
+    n_async_fn = []
     listed = {f["def"] for f in fx.d["fns"] if f["kind"] in ("fn", "assoc_fn") and (f["def"] + "::") in CLOSURE_HOLDERS}
     # code extracted from a listed function into a private helper used only there belongs to the same entry
     listed_helpers = graph.private_helpers(fx, listed)
@@ -157,6 +158,14 @@ def check_cfg(ctx, fx, cfg):
         if any((d + "::").startswith(pfx) or d.startswith(pfx) for pfx in CLOSURE_HOLDERS):
             continue
         if (fx.fn(d) or {}).get("root") in listed_helpers:
+            continue
+        # the body of an `async fn` holds what its caller handed in (and what it makes from it) for the duration of that
+        # call only: the future is returned to the caller, nothing keeps it beyond the await. What is listed above and
+        # reported below are closures and async blocks — the things that get stored or spawned.
+        df = fx.fn(d) or {}
+        pf = fx.fn(df.get("parent") or "") or {}
+        if df.get("kind") == "coroutine" and pf.get("is_async") and pf.get("kind") in ("fn", "assoc_fn") and not pf.get("impl_trait"):
+            n_async_fn.append(d)
             continue
         c_, p_, a = ka[0]
         ctx.viol("R05.10", "closure-holder:%s@%s" % (d, cfg), "a closure / future outside the closed list owns a strong handle (while it exists the actor cannot see its last handle dropped): %s via %s" % (a["ty"][:70], a["paths"][0][:100]), fn=d, site=(fx.fn(d) or {}).get("loc"))
